@@ -322,4 +322,57 @@ theorem first_transmissions_within_peer_window (v : VSock) (c : Ctx) (v' : VSock
           obtain ⟨_, rfl⟩ := hs
           rw [e]; omega
         · simp [throw, throwThe, MonadExceptOf.throw] at hs
+/-- **Loss recovery is paced by the pipe** (rfc6675 §5 step C): apart from the single retransmission that
+entering recovery triggers (`total_retransmitted_segments = 0`), the recovery loop retransmits only while the
+window left over the pipe estimate exceeds one segment, and charges every retransmission to it; with segments of
+at most `mss` bytes the payload it puts on the wire in one pass is at most that window (plus one segment for
+the entry retransmission). -/
+theorem recoveryLoop_bytes (h : Header) (mss : Nat) (views : List SegView) (v : VSock) (c : Ctx) (l : RecLoop)
+    (hsz : ∀ s ∈ views, s.seg.payloadSize ≤ mss)
+    (v' : VSock) (c' : Ctx) (l' : RecLoop) (p : Bool)
+    (hl : recoveryLoop h mss views v c l = .ok (v', c', l', p)) :
+    ∃ ds, c'.out = c.out ++ ds ∧
+      (ds.map (fun d => d.length - 20)).sum ≤ l.cwnd + (if l.st.totalRetransmittedSegments = 0 then mss else 0) := by
+  induction views generalizing v c l with
+  | nil =>
+    simp only [recoveryLoop, pure, Except.pure, Except.ok.injEq, Prod.mk.injEq] at hl
+    obtain ⟨_, rfl, _⟩ := hl
+    exact ⟨[], by simp, by simp⟩
+  | cons seg rest ih =>
+    have hrest : ∀ s ∈ rest, s.seg.payloadSize ≤ mss := fun s hs => hsz s (List.mem_cons_of_mem _ hs)
+    have hseg := hsz seg List.mem_cons_self
+    unfold recoveryLoop at hl
+    split at hl
+    · simp only [pure, Except.pure, Except.ok.injEq, Prod.mk.injEq] at hl
+      obtain ⟨_, rfl, _⟩ := hl
+      exact ⟨[], by simp, by simp⟩
+    · rename_i hgo
+      split at hl
+      · exact ih v c l hrest hl
+      · split at hl
+        · simp only [pure, Except.pure, Except.ok.injEq, Prod.mk.injEq] at hl
+          obtain ⟨_, rfl, _⟩ := hl
+          exact ⟨[], by simp, by simp⟩
+        · split at hl
+          · simp at hl
+          · simp [throw, throwThe, MonadExceptOf.throw] at hl
+          · rename_i v1 c1 hsd
+            have h2 := sendData_notsent v c h seg v1 c1 .pending hsd (by simp)
+            simp only [pure, Except.pure, Except.ok.injEq, Prod.mk.injEq] at hl
+            obtain ⟨_, rfl, _⟩ := hl
+            exact ⟨[], by simp [h2], by simp⟩
+          · rename_i v1 c1 hsd
+            obtain ⟨d, hd, hlen⟩ := sendData_bytes v c h seg v1 c1 hsd
+            obtain ⟨ds, hds, hsum⟩ := ih v1 c1 _ hrest hl
+            refine ⟨d :: ds, by rw [hds, hd]; simp, ?_⟩
+            simp only [List.map_cons, List.sum_cons, hlen] at hsum ⊢
+            simp only [Nat.succ_ne_zero, if_false, Nat.add_zero] at hsum
+            split
+            · omega
+            · rename_i hne
+              have : l.cwnd > mss := by
+                rcases Decidable.not_not.mp hgo with h0 | h1
+                · exact absurd h0 hne
+                · exact h1
+              omega
 end UtpVerif.Props.C05
